@@ -151,7 +151,7 @@ class G:
         out = []
         for _ in range(self.r.randint(lo, hi)):
             out += self.action()
-        return out
+        return spawn_first(out)
 
     def build(self, name):
         r = self.r
@@ -181,7 +181,7 @@ class G:
         if self.use_x:
             for e in self.ents:
                 if r.random() < 0.5: setup.append(f'xra:{r.choice([0, 1])}:{e}:{r.randint(0, 3)}')
-        tops.append(('flush', setup))
+        tops.append(('flush', spawn_first(setup)))
         nops = r.randint(2, 5)
         for _ in range(nops):
             kind = r.choices(['flush', 'direct', 'frame'], weights=[5, 2, 2 if self.profile != 'poll' else 6])[0]
@@ -205,6 +205,12 @@ class G:
             else:
                 L.append(f'top {kind} ' + ' '.join(body))
         return '\n'.join(L) + '\n'
+
+def spawn_first(acts):
+    """Bevy's Commands::spawn panics (B0003) if the reserved entity is despawned before the spawn command is applied;
+    a list of deferred actions therefore issues its system-spawning actions first (see DESIGN, wf rule `spawn_first`)."""
+    def is_spawn(a): return a.split(':')[0] in ('sps', 'on', 'onp', 'onr')
+    return [a for a in acts if is_spawn(a)] + [a for a in acts if not is_spawn(a)]
 
 def generate(profile, seed, idx):
     rng = random.Random((seed * 1000003 + idx) ^ hash_profile(profile))
